@@ -118,6 +118,31 @@ def run_config(cfg: dict, t: E.Tally, pkts) -> None:
                 t.bad(f"C10:rx-after-tx:passed-although-{_why(cfg, src, dst)}", f"{frame!r} delivered after the send phase; known={list(cfg['known'])} block={list(cfg['block'])} enforce={cfg['enforce']} active={cfg['active']}", rep)
             if exp == "always" and not delivered:
                 t.bad(f"C10:rx-after-tx:dropped-although-allowed:{_role(cfg, src)}->{_role(cfg, dst)}", f"{frame!r} NOT delivered after the send phase; known={list(cfg['known'])} block={list(cfg['block'])} enforce={cfg['enforce']} active={cfg['active']}", rep)
+        # --- receive from a saved-state cache: the same packets restored through the library's own restore path
+        seen: list = []
+        orig = gwy._msg_handler
+        gwy._msg_handler = lambda m: (seen.append(str(m._pkt)), orig(m))[1]
+        cache = {f"2024-01-01T00:{k // 60:02d}:{k % 60:02d}.000000": f"045 {frame}" for k, (frame, _, _) in enumerate(pkts)}
+        r = w.run(gwy._restore_cached_packets(cache), horizon=60)
+        w.loop.quiesce(w.loop.time() + 1)
+        gwy._msg_handler = orig
+        if r[0] != "ok":
+            t.bad(f"C10:cache:restore-fails:{r[0]}", f"restoring {len(cache)} packets: {r}; {cfg}", rep0)
+        else:
+            for frame, src, dst in pkts:
+                t.n += 1
+                delivered = frame in seen
+                exp = expected(cfg, src, dst, False)
+                rep = {"cfg": cfg, "frame": frame, "dir": "cache"}
+                if exp == "never" and delivered:
+                    named = "gateway-named-in-known-list" if cfg["known"].get(GW, {}).get("class") == "HGI" else "no-gateway-named-in-known-list"
+                    why = _why(cfg, src, dst)
+                    t.bad(f"C10:cache:passed-although-{why}" + ("" if why.startswith("blocked") else f":{named}"), f"{frame!r} restored from a packet cache reached the gateway's message handler; known={list(cfg['known'])} block={list(cfg['block'])} enforce={cfg['enforce']} active={cfg['active']}", rep)
+                # (restoring deliberately does not enforce the known list when the gateway's own id is not configured: only
+                #  the block list and - when it is enforced - the known list are demanded; over-blocking is judged on the live path)
+            for dev_id in list(gwy.device_by_id):
+                if dev_id in cfg["block"]:
+                    t.bad("C10:cache:device-created-for-blocked-id", f"device {dev_id} exists after restoring the cache; block={list(cfg['block'])}", rep0)
     finally:
         w.close()
 
